@@ -53,7 +53,7 @@ MANIFEST = {
 N_FREE = {'quick': 24, 'thorough': 240}
 K_SINGLE = {'quick': 12, 'thorough': 200}
 FAULT_KINDS = {'nialcr': ['growth_none', 'curvature_fail', 'df_none'], 'alzr': ['binary_unstable', 'df_none'],
-               'almgsi': ['growth_none', 'curvature_fail']}
+               'almgsi': ['growth_none', 'curvature_fail'], 'cuti': ['df_none', 'binary_unstable']}
 FAULT_METHOD = {'growth_none': 'getGrowthAndInterfacialComposition', 'binary_unstable': 'getInterfacialComposition',
                 'df_none': 'getDrivingForce', 'curvature_fail': '_getCompositionSetsEq'}
 
@@ -71,6 +71,9 @@ def base_cfg(system):
         cfg['schedule'] = {'kind': 'iso', 'T': 760.0}
         cfg['segments'] = [3e3, 3e4]
         cfg['pbm'] = {'cMin': 1e-10, 'cMax': 5e-9, 'bins': 40, 'minBins': 30, 'maxBins': 60, 'adaptive': True}
+    elif system == 'cuti':
+        cfg['schedule'] = {'kind': 'iso', 'T': 640.0}
+        cfg['segments'] = [1e2, 1e3]
     else:
         cfg['schedule'] = {'kind': 'iso', 'T': 450.0}
         cfg['segments'] = [2e3, 2e4]
@@ -92,9 +95,11 @@ def plan(tier, seed):
         cfg['max_steps'] = min(cfg['max_steps'], 2500 if tier == 'quick' else 8000)
         cases.append({'kind': 'free', 'cfg': cfg, 'weight': 4e4 * cfg['max_steps'] / 100})
     K = K_SINGLE[tier]
-    for system in ('nialcr', 'alzr', 'almgsi'):
+    for system in ('nialcr', 'alzr', 'almgsi', 'cuti'):
         if system == 'almgsi' and tier == 'quick':
             kinds = ['growth_none']
+        elif system == 'cuti' and tier == 'quick':
+            kinds = ['df_none']          # binary, two precipitate phases: the fault hits the queries of both phases
         else:
             kinds = FAULT_KINDS[system]
         for kind in kinds:
@@ -115,7 +120,7 @@ def plan(tier, seed):
             B = 6 if tier == 'quick' else 8
             for b in range(0, len(scheds), B):
                 cases.append({'kind': 'fault', 'system': system, 'fault': kind, 'schedules': scheds[b:b + B],
-                              'weight': 3e3 * B * {'alzr': 1, 'nialcr': 2, 'almgsi': 5}[system]})
+                              'weight': 3e3 * B * {'alzr': 1, 'nialcr': 2, 'almgsi': 5, 'cuti': 2}[system]})
     return cases
 
 
